@@ -521,7 +521,18 @@ def _exec_loss(case, mon):
     if not judged:
         mon.ambiguous("non-dyadic-costs-or-reference-token-not-a-class")
     logits, ref, hyp = _loss_tensors(case)
-    out = _call_loss(mon, case, logits, ref, hyp)
+    # the same numbers in a validation loop (no_grad), in a training step (logits that require grad) and plain
+    gm = (N + H + case["R"] + V) % 3
+    if gm == 1:
+        with torch.no_grad():
+            out = _call_loss(mon, case, logits, ref, hyp)
+        mon.cls("loss_called_under_no_grad")
+    elif gm == 2 and logits.dtype.is_floating_point:
+        with torch.enable_grad():
+            out = _call_loss(mon, case, logits.detach().clone().requires_grad_(True), ref, hyp).detach()
+        mon.cls("loss_called_on_logits_requiring_grad")
+    else:
+        out = _call_loss(mon, case, logits, ref, hyp)
     mon.stat("loss_reduction_" + red)
     if case["R"] == 0:
         mon.stat("zero_width_reference_tensor")
